@@ -191,8 +191,9 @@ def classify(c, r, target="sql.sqlite"):
     if "append" in prql and st in ("sqlite-error", "rows-differ", "column-count"):
         if union_misaligned(sql) or (st == "sqlite-error" and "UNION ALL do not have the same number" in det):
             return "append-branches-misaligned"
-        # same number of explicit columns, but one branch was reordered (group keys first / pruning)
-        if st == "rows-differ" and re.search(r"\bgroup\b", prql) and _select_lists_of_unions(sql):
+        # same number of explicit columns, but one branch was reordered / pruned differently (group keys first, carried sort keys,
+        # a later select): recognisable only by the program shape - an append followed by a pruning or reordering transform
+        if st == "rows-differ" and "UNION ALL" in sql and re.search(r"\bappend\b.*\n(?:.*\n)*?(?:select|aggregate|group|sort)\b", prql):
             return "append-branches-misaligned"
     if re.search(r"GROUP BY (?:[^()]*?, )?-?[0-9]+(?:,| |\)|$)", sql) and (st == "rows-differ" or (st == "sqlite-error" and "GROUP BY" in det)):
         return "group-by-constant-read-as-ordinal"
